@@ -1123,7 +1123,11 @@ func func_Select(rtParams FunctionParameterTypes, val any) (any, error) {
 		orderedMapValues := v.MapKeys()
 		// Sort the keys to ensure deterministic output.
 		sort.Slice(orderedMapValues, func(i, j int) bool {
-			return orderedMapValues[i].String() < orderedMapValues[j].String()
+			ti, tj := mapKeySortText(orderedMapValues[i]), mapKeySortText(orderedMapValues[j])
+			if ti != tj {
+				return ti < tj
+			}
+			return mapKeySortType(orderedMapValues[i]) < mapKeySortType(orderedMapValues[j])
 		})
 
 		for _, key := range orderedMapValues {
@@ -1145,6 +1149,33 @@ func func_Select(rtParams FunctionParameterTypes, val any) (any, error) {
 		return nil, fmt.Errorf("func %s: unsupported type %T; expected array or map", FT_Select, val)
 	}
 	return results, nil
+}
+
+// mapKeySortText is the text a map key is ordered by: the string itself for string keys (as before),
+// the printed value for keys of any other kind. reflect.Value.String() is the same placeholder for
+// every non-string key, which left the order of such maps (map[any]any from YAML, map[int]T) to chance.
+func mapKeySortText(k reflect.Value) string {
+	if k.Kind() == reflect.Interface {
+		k = k.Elem()
+	}
+	if !k.IsValid() {
+		return ""
+	}
+	if k.Kind() == reflect.String {
+		return k.String()
+	}
+	return fmt.Sprint(k.Interface())
+}
+
+// mapKeySortType separates keys of different types that print alike (1 and "1" in a map[any]any)
+func mapKeySortType(k reflect.Value) string {
+	if k.Kind() == reflect.Interface {
+		k = k.Elem()
+	}
+	if !k.IsValid() {
+		return ""
+	}
+	return k.Type().String()
 }
 
 func isNil(val any) bool {
